@@ -10,7 +10,6 @@ package block
 
 //@ func (pb *pendingBase[T]) getPending(ctx) (items, err)
 //@   property C06
-//@   requires [height-bound] pb.store.height < 18446744073709551615
 //@   ensures [range] err == nil ==> len(items) == pb.store.height - pb.lastHeight
 //@   ensures [items] err == nil ==> forall k :: 0 <= k && k < len(items) ==> items[k] == ItemOf(pb.store, pb.lastHeight + 1 + k)
 //@   ensures [ahead] pb.lastHeight > pb.store.height && !pb.store.faulty ==> err != nil
@@ -529,3 +528,93 @@ package block
 //@   loop 1 invariant [advance-iff] pn.count == 1 ==> ((m.daHeight.v == U64Inc(iter(m.daHeight.v))) <==> (pn.res0 == nil || ctxDone(ctx)))
 //@   loop 1 invariant [never-skip] m.daHeight.v == iter(m.daHeight.v) || m.daHeight.v == U64Inc(iter(m.daHeight.v))
 //@   loop 1 invariant [one-try] pn.count <= 1
+
+// ---- C02: polling the P2P stores ---------------------------------------------------------------
+
+//@ func (m *Manager) getHeadersFromHeaderStore(ctx, startHeight, endHeight) (r, err)
+//@   property C02
+//@   requires [bound] endHeight < 18446744073709551615
+//@   ensures [range] err == nil ==> startHeight <= endHeight && len(r) == endHeight - startHeight + 1
+//@   ensures [items] err == nil ==> forall k :: 0 <= k && k < len(r) ==> r[k] == HStoreAt(m.headerStore, startHeight + k)
+//@   loop 1 invariant [idx] startHeight <= i && i <= endHeight + 1 && len(headers) == endHeight - startHeight + 1
+//@   loop 1 invariant [items] forall k :: 0 <= k && k < i - startHeight ==> headers[k] == HStoreAt(m.headerStore, startHeight + k)
+
+//@ func (m *Manager) getDataFromDataStore(ctx, startHeight, endHeight) (r, err)
+//@   property C02
+//@   requires [bound] endHeight < 18446744073709551615
+//@   ensures [range] err == nil ==> startHeight <= endHeight && len(r) == endHeight - startHeight + 1
+//@   ensures [items] err == nil ==> forall k :: 0 <= k && k < len(r) ==> r[k] == HStoreAt(m.dataStore, startHeight + k)
+//@   loop 1 invariant [idx] startHeight <= i && i <= endHeight + 1 && len(data) == endHeight - startHeight + 1
+//@   loop 1 invariant [items] forall k :: 0 <= k && k < i - startHeight ==> data[k] == HStoreAt(m.dataStore, startHeight + k)
+
+//@ func (m *Manager) HeaderStoreRetrieveLoop(ctx)
+//@   property C02 C03
+//@   requires [wiring] m.daHeight != nil && m.headerStore != nil && m.store != nil && len(m.genesis.ProposerAddress) > 0
+//@   observe gh := call getHeadersFromHeaderStore
+//@   observe iu := call isUsingExpectedSingleSequencer
+//@   modifies heap "types.SignedHeader.signatureProvider"
+//@   loop 1 invariant [advance-only-after-read] lastHeaderStoreHeight > iter(lastHeaderStoreHeight)
+//@                       ==> gh && gh.res1 == nil && gh.arg2 == iter(lastHeaderStoreHeight) + 1 && gh.arg3 == lastHeaderStoreHeight
+//@   loop 2 invariant [forward-iff-genuine] iu.count <= 1 && sendCount("headerInCh") <= 1 && (sendCount("headerInCh") == 1 ==> iu.count == 1 && iu.res0 && sent("headerInCh").Header == iu.arg1)
+//@   loop 2 invariant [each-examined] rangeindex >= 0 && !ctxDone(ctx) ==> iu.count == 1 && (iu.res0 ==> sendCount("headerInCh") == 1)
+//@   loop 2 invariant [cursor-fixed] lastHeaderStoreHeight == iter(lastHeaderStoreHeight) && gh && gh.res1 == nil && gh.arg2 == lastHeaderStoreHeight + 1 && gh.arg3 == headerStoreHeight
+
+//@ func (m *Manager) DataStoreRetrieveLoop(ctx)
+//@   property C02
+//@   requires [wiring] m.daHeight != nil && m.dataStore != nil && m.store != nil
+//@   observe gd := call getDataFromDataStore
+//@   loop 1 invariant [advance-only-after-read] lastDataStoreHeight > iter(lastDataStoreHeight)
+//@                       ==> gd && gd.res1 == nil && gd.arg2 == iter(lastDataStoreHeight) + 1 && gd.arg3 == lastDataStoreHeight
+//@   loop 2 invariant [forward-each] sendCount("dataInCh") <= 1 && (rangeindex >= 0 && !ctxDone(ctx) ==> sendCount("dataInCh") == 1)
+//@   loop 2 invariant [cursor-fixed] lastDataStoreHeight == iter(lastDataStoreHeight) && gd && gd.res1 == nil && gd.arg2 == lastDataStoreHeight + 1 && gd.arg3 == dataStoreHeight
+
+// ---- C06 / C08: the submission loops hand everything pending to the DA helper ------------------
+
+//@ func (m *Manager) createSignedDataToSubmit(ctx) (r, err)
+//@   property C06 C08
+//@   requires [wiring] m.pendingData != nil && m.pendingData.base != nil && m.pendingData.base.store == m.store && m.store != nil
+//@   observe gpd := call getPendingData
+//@   observe gs := call getDataSignature
+//@   modifies m.pendingData.base.lastHeight, durable m.store.meta[m.pendingData.base.metaKey], durable m.store.metaHas[m.pendingData.base.metaKey]
+//@   ensures [nonempty-only] err == nil ==> forall j :: 0 <= j && j < len(r) ==> r[j] != nil && len(r[j].Data.Txs) > 0
+//@   ensures [signer-is-proposer] err == nil ==> forall j :: 0 <= j && j < len(r) ==> val(r[j].Signer.Address) == val(m.genesis.ProposerAddress)
+//@   ensures [nothing-left-behind] err == nil && len(r) == 0 && !m.store.faulty && old(m.pendingData.base.lastHeight) <= m.store.height ==> m.pendingData.base.lastHeight == m.store.height
+//@   loop 1 invariant [nonempty-only] forall j :: 0 <= j && j < len(signedDataToSubmit) ==> signedDataToSubmit[j] != nil && len(signedDataToSubmit[j].Data.Txs) > 0
+//@                       && val(signedDataToSubmit[j].Signer.Address) == val(m.genesis.ProposerAddress)
+//@   loop 1 invariant [frame] m.pendingData.base.lastHeight == old(m.pendingData.base.lastHeight) && rangeindex >= -1
+
+//@ func (m *Manager) getDataSignature(data) (sig, err)
+//@   property C06 C03
+//@   requires [non-nil] data != nil
+//@   ensures [signed] err == nil ==> Signed(SignerKey(m.signer.val), MarshalDataOf(TxsId(data.Txs), DMetaOf(data)), val(sig))
+
+//@ func (m *Manager) submitHeadersToDA(ctx, headersToSubmit) (err)
+//@   modifies m.headerCache.daInc, m.headerCache.daIncHas, m.dataCache.daInc, m.dataCache.daIncHas,
+//@            m.pendingHeaders.base.lastHeight, m.pendingData.base.lastHeight, durable m.store.meta, durable m.store.metaHas
+//@   ensures [any] true
+//@ func (m *Manager) submitDataToDA(ctx, signedDataToSubmit) (err)
+//@   modifies m.headerCache.daInc, m.headerCache.daIncHas, m.dataCache.daInc, m.dataCache.daIncHas,
+//@            m.pendingHeaders.base.lastHeight, m.pendingData.base.lastHeight, durable m.store.meta, durable m.store.metaHas
+//@   ensures [any] true
+
+//@ func (m *Manager) HeaderSubmissionLoop(ctx)
+//@   property C06 C08
+//@   requires [wiring] m.pendingHeaders != nil && m.pendingHeaders.base != nil && m.pendingHeaders.base.store == m.store && m.store != nil
+//@   observe gph := call getPending
+//@   observe sub := call submitHeadersToDA
+//@   modifies m.headerCache.daInc, m.headerCache.daIncHas, m.dataCache.daInc, m.dataCache.daIncHas,
+//@            m.pendingHeaders.base.lastHeight, m.pendingData.base.lastHeight, durable m.store.meta, durable m.store.metaHas
+//@   loop 1 invariant [submit-exactly-pending] sub ==> gph && gph.res1 == nil && sub.arg2 == gph.res0
+//@   loop 1 invariant [submit-all-pending] gph && gph.res1 == nil && len(gph.res0) > 0 ==> sub
+//@   loop 1 invariant [once] sub.count <= 1
+
+//@ func (m *Manager) DataSubmissionLoop(ctx)
+//@   property C06 C08
+//@   requires [wiring] m.pendingData != nil && m.pendingData.base != nil && m.pendingData.base.store == m.store && m.store != nil
+//@   observe cs := call createSignedDataToSubmit
+//@   observe sub := call submitDataToDA
+//@   modifies m.headerCache.daInc, m.headerCache.daIncHas, m.dataCache.daInc, m.dataCache.daIncHas,
+//@            m.pendingHeaders.base.lastHeight, m.pendingData.base.lastHeight, durable m.store.meta, durable m.store.metaHas
+//@   loop 1 invariant [submit-exactly-created] sub ==> cs && cs.res1 == nil && sub.arg2 == cs.res0
+//@   loop 1 invariant [submit-all-created] cs && cs.res1 == nil && len(cs.res0) > 0 ==> sub
+//@   loop 1 invariant [once] sub.count <= 1
